@@ -43,7 +43,8 @@ Enq ==
 
 Deq ==
   /\ IsEvent("Deq")
-  /\ qd' = qd \ SeqRange(Trace[l].keys)
+  \* an unanswered dequeue (killed before the reply) may have leased anything that was ready
+  /\ qd' = IF Trace[l].status = 200 THEN qd \ SeqRange(Trace[l].keys) ELSE {}
   /\ UNCHANGED <<sent, must, gone, deadk, maydead, mayb, fans>>
 
 \* ack / nack / dead of a held lease: status 204 (done), 409 (conflict, nothing happened), -1 (no answer: killed)
@@ -81,6 +82,7 @@ Restart ==
         /\ Chk("no_half_written", \A k \in D : R[k].ok /\ R[k].state \in StatesOK)
         /\ Chk("unacknowledged_all_or_prefix", \A f \in fans : prefixOK(f))
         /\ Chk("restart_succeeds", e.restarted)
+        /\ Chk("settled_not_offered", (gone \cup deadk) \cap SeqRange(e.offered) = {})
         /\ Chk("offered_again", \A k \in (must \ (deadk \cup maydead)) \cap SeqRange(e.pullkeys) : k \in SeqRange(e.offered))
   /\ UNCHANGED <<sent, must, gone, deadk, maydead, qd, mayb, fans>>
 
